@@ -30,6 +30,7 @@ func c25(r *core.Report, p *core.Prog, thorough bool) {
 	r.Rule("C25.cache", "getPartition stores a partition it loaded into p.Partitions[i] before returning it")
 	r.Rule("C25.save", "Save: for every key of p.Partitions a partition with changed() is saved (error aborts), then InsertTrieNode(p.Name, p) on every success path")
 	r.Rule("C25.location", "pack: saveItemLoc for every item of the sealed tail with the tail's Loc; removeItem: saveItemLoc(moved.ID, index) after the move; Remove/RemoveX: removeItemLoc(id) after removeItem; loadLastFromPrev: removeItemLoc for every item of the new tail")
+	r.Rule("C25.sealed-persisted", "pack: the full tail that is moved into p.Partitions has been written under its own key (partition.save, error aborting) or is marked Changed before it stops being the tail — Save() writes only partitions whose Changed flag is set, and the flag is not serialized (a tail that was only decoded, or pulled back by loadLastFromPrev, is clean)")
 	r.Rule("C25.lookup-order", "getItemPartIndex is called only where the tail's find missed (or, in Add/AddX, before the tail is searched by add); Last.add only after the tail's find missed")
 	r.Rule("C25.tail", "pack is called exactly under Last.length() == PartitionSize and Last.add is not reached from the full edge without it; removeFromLast/removeItem exit successfully only with a non-empty tail or after loadLastFromPrev")
 	r.Rule("C25.locations-cache", "the in-memory locations map gets an entry only together with the stored location (saveItemLoc, same key) or for the items of a partition taken from p.Partitions (never the tail: tail items have no location and removeFromLast clears none)")
@@ -187,6 +188,7 @@ func c25(r *core.Report, p *core.Prog, thorough bool) {
 	// ---- C25.lookup-order
 	c25Lookup(r, p, need, lastF)
 
+	c25Sealed(r, p, need, partsF, changedF)
 	// ---- C25.locations-cache
 	c25LocationsCache(r, p, itemsF, lastF, partsF)
 
@@ -928,4 +930,52 @@ func c25LocationsCache(r *core.Report, p *core.Prog, itemsF, lastF, partsF *type
 		}
 	}
 	r.Floor("C25.locations-cache", "writes into the locations map", n, 2)
+}
+
+// c25Sealed: the full tail moved into p.Partitions by pack has been persisted (or is dirty).
+func c25Sealed(r *core.Report, p *core.Prog, need map[string]*ssa.Function, partsF, changedF *types.Var) {
+	sameObj := func(a, b ssa.Value) bool {
+		if a == b || canonObj(a) == canonObj(b) {
+			return true
+		}
+		fa, ra := loadOfAnyField(a)
+		fb, rb := loadOfAnyField(b)
+		return fa != nil && fa == fb && ra == rb
+	}
+	pack := need["P.pack"]
+	n := 0
+	for _, b := range pack.Blocks {
+		for _, in := range b.Instrs {
+			var stored ssa.Value
+			switch x := in.(type) {
+			case *ssa.Store:
+				if ia, ok := x.Addr.(*ssa.IndexAddr); ok {
+					if f, _ := loadOfAnyField(ia.X); f == partsF {
+						stored = x.Val
+					}
+				}
+			case *ssa.MapUpdate:
+				if f, _ := loadOfAnyField(x.Map); f == partsF {
+					stored = x.Value
+				}
+			}
+			if stored == nil {
+				continue
+			}
+			n++
+			ok := false
+			for _, l := range LiftCalls(pack, func(c *ssa.CallCommon) bool { return core.StaticCallee(c) == need["q.save"] }, 1) {
+				if sameObj(l.Recv(), stored) && Before(l.Site, in) && l.ErrFails() && l.MustInHelpers(p) {
+					ok = true
+				}
+			}
+			for _, w := range core.FieldWrites([]*ssa.Function{pack}, changedF) {
+				if k, isK := w.Val.(*ssa.Const); isK && k.Value != nil && k.Value.ExactString() == "true" && sameObj(w.Addr.X, stored) && Before(w.Instr, in) {
+					ok = true
+				}
+			}
+			r.Check(ok, "C25.sealed-persisted", fmt.Sprintf("pack:sealed-tail-written#%d", n), posOf(p, in), "the partition registered in p.Partitions must have been saved (or marked Changed) first: Save() skips clean partitions and item locations already point at it")
+		}
+	}
+	r.Floor("C25.sealed-persisted", "stores into p.Partitions in pack", n, 1)
 }
